@@ -46,13 +46,12 @@ pub fn literal<'a>() -> impl Parser<'a, &'a str, Literal, Err<'a>> + Clone {
     recursive(|literal| {
         let int = just("-")
             .or_not()
-            .then(text::int(10).from_str::<u64>().unwrapped())
-            .map(|(sign, val)| {
-                Literal::Int(if sign.is_some() {
-                    -(val as i64)
-                } else {
-                    val as i64
-                })
+            .then(text::int(10))
+            .to_slice()
+            .try_map(|s: &str, span| {
+                s.parse::<i64>()
+                    .map(Literal::Int)
+                    .map_err(|e| Rich::custom(span, e))
             });
 
         let float = just("-")
@@ -158,7 +157,10 @@ pub fn parser<'a>() -> impl Parser<'a, &'a str, Dqe, Err<'a>> {
         let mb_usize = text::int(10)
             .or_not()
             .padded()
-            .map(|v: Option<&str>| v.map(|v| v.parse::<usize>().unwrap()));
+            .try_map(|v: Option<&str>, span| {
+                v.map(|v| v.parse::<usize>().map_err(|e| Rich::custom(span, e)))
+                    .transpose()
+            });
 
         let slice_op = mb_usize
             .then_ignore(just("..").padded())
